@@ -1,5 +1,7 @@
 /- test_util.rs: shorthand constructors taking primitives, `try_into().expect(..)` on every argument. -/
 import Midi.Model.Short
+import Midi.Model.CC14
+import Midi.Model.PN
 namespace Midi
 
 /-- `value.try_into().expect("not a valid ...")` for a newtype with maximum `max` -/
@@ -38,5 +40,24 @@ def tuSongPositionPointer (p : Nat) : Res Bytes := do
   let p ← tuU14 p; mkSongPositionPointer rawFactory p
 def tuSongSelect (n : Nat) : Res Bytes := do
   let n ← tuU7 n; mkSongSelect rawFactory n
+
+end Midi
+
+namespace Midi
+
+/-- `control_change_14_bit(channel, msb_controller_number, value)`: three conversions, then `new` -/
+def tuControlChange14Bit (ch msb value : Nat) : Res CC14Msg := do
+  let c ← tuChannel ch; let n ← tuControllerNumber msb; let v ← tuU14 value
+  CC14Msg.new c n v
+
+/-- `nrpn`, `nrpn_14_bit`, `rpn`, `rpn_14_bit` -/
+def tuPn (registered is14 : Bool) (ch number value : Nat) : Res PNMsg := do
+  let c ← tuChannel ch; let n ← tuU14 number
+  if is14 then do
+    let v ← tuU14 value
+    .ok (.fourteenBit c n v registered)
+  else do
+    let v ← tuU7 value
+    .ok (.sevenBit c n v registered .dataEntry)
 
 end Midi
